@@ -21,6 +21,7 @@ package tunnelprops
 //   control  the well-formed envelope of the same call behaves exactly like the untunnelled call
 
 import (
+	"strconv"
 	"bytes"
 	"context"
 	"encoding/json"
@@ -447,6 +448,12 @@ func send(req *http.Request, real bool) (o outcome) {
 		o.Status, o.Body, hdr = resp.StatusCode, string(b), resp.Header
 	} else {
 		sreq := serverSide(req)
+		if v := sreq.Header.Get(failAfterHeader); v != "" {
+			// the connection breaks after n body bytes: every read past them fails
+			n, _ := strconv.Atoi(v)
+			sreq.Header.Del(failAfterHeader)
+			sreq.Body = io.NopCloser(&brokenBody{r: sreq.Body, left: n})
+		}
 		rr := httptest.NewRecorder()
 		if p, pv, st := hx.Try(func() { h.ServeHTTP(rr, sreq) }); p {
 			o.Failure = fmt.Sprintf("ServeHTTP panicked: %v\n%s", pv, st)
@@ -462,6 +469,28 @@ func send(req *http.Request, real bool) (o outcome) {
 	}
 	o.Calls = takeLog()
 	return o
+}
+
+const failAfterHeader = "X-Verif-Fail-After"
+
+type brokenBody struct {
+	r    io.Reader
+	left int
+}
+
+func (b *brokenBody) Read(p []byte) (int, error) {
+	if b.left <= 0 {
+		return 0, io.ErrUnexpectedEOF
+	}
+	if len(p) > b.left {
+		p = p[:b.left]
+	}
+	n, err := b.r.Read(p)
+	b.left -= n
+	if err == io.EOF {
+		err = io.ErrUnexpectedEOF // (the well-formed envelope is longer than what arrives)
+	}
+	return n, err
 }
 
 func canonJSON(s string) any {
@@ -656,7 +685,7 @@ var malformedVariants = map[string][]string{
 	"b":       {"only_query_part", "query_part_twice"},
 	"c":       {"third_part_text_plain", "body_part_as_text_plain", "query_part_as_text_plain", "body_part_without_content_type", "third_part_octet_stream", "body_part_as_xml"},
 	"d":       {"same_query_in_url", "other_query_in_url", "form_body_empty_and_query_in_url"},
-	"e":       {"wrong_boundary", "no_boundary_param", "truncated", "garbage_body", "empty_body", "form_body_labelled_multipart"},
+	"e":       {"wrong_boundary", "no_boundary_param", "truncated", "garbage_body", "empty_body", "form_body_labelled_multipart", "read_error"},
 	"f":       {"text_plain", "application_json", "missing", "multipart_form_data", "application_xml", "unparseable", "octet_stream"},
 	"g":       {"GET", "PUT", "DELETE"},
 	"control": {"wellformed"},
@@ -730,6 +759,9 @@ func (c malformedCase) envelope(base *url.URL) *http.Request {
 		// keep a prefix in which the text of the closing delimiter's boundary is incomplete (or absent)
 		max := len(payload) - 5
 		payload = payload[:max*c.Cut/1000]
+	case "e/read_error":
+		// a well-formed envelope (form-encoded without a body, multipart with one) of which only a prefix arrives before the
+		// connection breaks
 	case "e/garbage_body":
 		ct, payload = tunnel.MixedContentType(bd), []byte("this is not multipart\r\n--nor-this--\r\n")
 	case "e/empty_body":
@@ -779,6 +811,9 @@ func (c malformedCase) envelope(base *url.URL) *http.Request {
 	if ct != "" {
 		req.Header.Set("Content-Type", ct)
 	}
+	if c.Class == "e" && c.Variant == "read_error" {
+		req.Header.Set(failAfterHeader, strconv.Itoa((len(payload)-1)*c.Cut/1000))
+	}
 	return req
 }
 
@@ -810,7 +845,23 @@ func checkMalformed(rec *stats.Recorder, c malformedCase) (string, string) {
 			panic(fmt.Sprintf("harness: routable call did not reach exactly one resource function when sent untunnelled: %s%s", hx.J(ref), desc))
 		}
 	}
+	if c.Class == "e" && c.Variant == "read_error" {
+		c.RealHop = false // (the broken connection is simulated on the server side of the in-process hop)
+	}
 	o := send(req, c.RealHop)
+	if c.Class == "e" && c.Variant == "read_error" {
+		// the request could not be read: whatever the answer is, resource code must not run on a part of it
+		if o.Failure != "" {
+			return name, failf("tunnelled request whose body breaks off: %s%s", o.Failure, desc)
+		}
+		if len(o.Calls) != 0 {
+			return name, failf("a tunnelled request of which only a prefix could be read reached resource code: %s (status %d)%s", clipS(hx.J(o.Calls)), o.Status, desc)
+		}
+		if o.Status < 400 {
+			return name, failf("a tunnelled request of which only a prefix could be read was answered %d%s", o.Status, desc)
+		}
+		return "", ""
+	}
 	switch c.Class {
 	case "control":
 		if d := sameOutcome(ref, o); d != "" {
